@@ -1,7 +1,7 @@
 """C11 - refinement tiles the domain.  Rules TILE, DISPATCH, INHERIT, PART."""
 import ast
 import itertools
-from ..core import AnalysisError, norm, dotted, call_name, walk_no_nested, Folder, TOP, is_self_attr
+from ..core import cnorm_block, AnalysisError, norm, dotted, call_name, walk_no_nested, Folder, TOP, is_self_attr
 from ..consteval import Interp
 from ..formula import check_formula, check_return, compare
 
@@ -278,9 +278,9 @@ def rule_decomp_dispatch(run):
     im = prog.func('mulgrids.column.index_minus')
     idst = prog.func('mulgrids.column.index_dist')
     t1, t2 = norm(im.node), norm(idst.node)
-    run.shape('result = i - d if result < 0: result += self.num_nodes return result' in t1, 'column.index_minus :: (i - d) mod n',
+    run.shape(cnorm_block('result = i - d\nif result < 0: result += self.num_nodes\nreturn result') in t1, 'column.index_minus :: (i - d) mod n',
               'index_minus not recognised', where=im.where())
-    run.shape('d = abs(i1 - i2) if 2 * d > self.num_nodes: d = self.num_nodes - d return d' in t2, 'column.index_dist :: cyclic distance',
+    run.shape(cnorm_block('d = abs(i1 - i2)\nif 2 * d > self.num_nodes: d = self.num_nodes - d\nreturn d') in t2, 'column.index_dist :: cyclic distance',
               'index_dist not recognised', where=idst.where())
     # find the branch of each (nn, ns) case
     branches = {}
@@ -544,7 +544,7 @@ def rule_part(run):
               'mulgrid.add_layers :: layer(name, bottom=z, centre)', 'layer constructions are %s' % [norm(c) for c in lc], where=al.where())
     lt = prog.func('mulgrids.mulgrid.identify_layer_tops')
     t3 = norm(lt.node)
-    run.shape('for i, this in enumerate(self.layerlist[1:]): above = self.layerlist[i] this.top = above.bottom' in t3,
+    run.shape(cnorm_block('for i, this in enumerate(self.layerlist[1:]):\n    above = self.layerlist[i]\n    this.top = above.bottom') in t3,
               'mulgrid.identify_layer_tops :: top = bottom of the layer above', 'idiom not recognised', where=lt.where())
     th = prog.func('mulgrids.layer.get_thickness')
     check_return(run, 'layer.thickness :: top - bottom', th, 'self.top - self.bottom', 'thickness is not top - bottom')
@@ -610,6 +610,11 @@ def rule_angle_index(run):
             if not others: ent = ('map', g.iter.id)
         if ent: lists[name] = ent; order.append((name, ent))
     ret = [r for r in walk_no_nested(fi.node) if isinstance(r, ast.Return)]
+    if len(ret) == 1 and isinstance(ret[0].value, ast.ListComp) and len(ret[0].value.generators) == 1 and \
+       isinstance(ret[0].value.generators[0].iter, ast.Name) and ret[0].value.generators[0].iter.id in lists and \
+       not [x for x in ast.walk(ret[0].value.elt) if isinstance(x, ast.Name) and x.id in lists]:
+        # `return [f(a) for a in angles]`: an element-wise map keeps the index
+        ret[0] = ast.copy_location(ast.Return(value=ast.Name(id=ret[0].value.generators[0].iter.id, ctx=ast.Load())), ret[0])
     if len(ret) != 1 or not isinstance(ret[0].value, ast.Name) or ret[0].value.id not in lists:
         run.unknown(key, 'returned list not recognised (%s)' % sorted(lists), where=fi.where()); return
 
